@@ -208,36 +208,48 @@ pub fn check_opreturn(r: &RunResult, coin: &Coin, range: &[MBlock]) -> Vec<Misma
         Ok(g) => g,
     };
     let want = model::opreturn_lines(coin, range);
-    // align: expected lines with data=None may be present (any text) or absent
+    // expected lines with data=None are optional (any text); exact sequence match with optional elements (DP)
+    let (n, m) = (got.len(), want.len());
+    let mut ok = vec![vec![false; m + 1]; n + 1];
+    ok[n][m] = true;
+    for wi in (0..m).rev() {
+        for gi in (0..=n).rev() {
+            let w = &want[wi];
+            ok[gi][wi] = match &w.data {
+                Some(d) => gi < n && got[gi].0 == w.height && got[gi].1 == w.txid && &got[gi].2 == d && ok[gi + 1][wi + 1],
+                None => ok[gi][wi + 1] || (gi < n && got[gi].0 == w.height && got[gi].1 == w.txid && ok[gi + 1][wi + 1]),
+            };
+        }
+    }
+    if ok[0][0] {
+        return v;
+    }
+    // explain: greedy walk to the first difference
     let mut gi = 0;
     for w in &want {
         match &w.data {
-            Some(d) => {
-                match got.get(gi) {
-                    Some(g) if g.0 == w.height && g.1 == w.txid && &g.2 == d => gi += 1,
-                    Some(g) => {
-                        let sig = if g.0 == w.height && g.1 == w.txid { "opreturn-payload-differs" } else { "opreturn-line-mismatch" };
-                        v.push(mm(sig, format!("line {}: observed {:?} expected {:?}", gi + 1, g, (w.height, &w.txid, d))));
-                        return v;
-                    }
-                    None => {
-                        v.push(mm("opreturn-line-missing", format!("line {} missing: expected {:?}", gi + 1, (w.height, &w.txid, d))));
-                        return v;
-                    }
+            Some(d) => match got.get(gi) {
+                Some(g) if g.0 == w.height && g.1 == w.txid && &g.2 == d => gi += 1,
+                Some(g) => {
+                    let sig = if g.0 == w.height && g.1 == w.txid { "opreturn-payload-differs" } else { "opreturn-line-mismatch" };
+                    v.push(mm(sig, format!("line {}: observed {:?} expected {:?}", gi + 1, g, (w.height, &w.txid, d))));
+                    return v;
                 }
-            }
+                None => {
+                    v.push(mm("opreturn-line-missing", format!("line {} missing: expected {:?}", gi + 1, (w.height, &w.txid, d))));
+                    return v;
+                }
+            },
             None => {
                 if let Some(g) = got.get(gi) {
                     if g.0 == w.height && g.1 == w.txid {
-                        gi += 1; // don't-care line printed
+                        gi += 1;
                     }
                 }
             }
         }
     }
-    if gi != got.len() {
-        v.push(mm("opreturn-unexpected-line", format!("unexpected line {:?}", got[gi])));
-    }
+    v.push(mm("opreturn-unexpected-line", format!("unexpected line {:?}", got.get(gi))));
     v
 }
 
